@@ -61,10 +61,16 @@ def lastKey : List Key → Option Key
 def field (e : Err) : Option Key := lastKey e.dp
 
 /-- `definitions_errors`: children grouped by the definition index found in
-    their schema path, groups in order of first appearance -/
+    their schema path, groups in order of first appearance, members in their
+    original order (fuel = length of the list) -/
+def regroupF (key : Err → Option Key) : Nat → List Err → List Err
+  | 0, _ => []
+  | _ + 1, [] => []
+  | n + 1, k :: ks =>
+      (k :: ks.filter (fun x => key x == key k)) ++ regroupF key n (ks.filter (fun x => !(key x == key k)))
+
 def regroup (spLen : Nat) (ks : List Err) : List Err :=
-  let idxs := (ks.filterMap (fun k => k.sp[spLen]?)).eraseDups
-  idxs.flatMap (fun i => ks.filter (fun k => k.sp[spLen]? == some i))
+  regroupF (fun k => k.sp[spLen]?) ks.length ks
 
 mutual
 /-- `_rewrite_error_path(error, offset)` on a deep copy; `dp` is the (already
